@@ -12,7 +12,6 @@ CLAUSES = {
     12: "MAIL or RCPT was accepted although the scripted check rejects that sender / recipient",
     107: "a second EHLO/LHLO inside a transaction makes go-smtp create a fresh session but keep its own MAIL/RCPT state: recipients accepted before it are reported as delivered by the next DATA although they belong to the aborted transaction",
     109: "LMTP: the Commit of one target failed after another target had already been committed (map iteration order); the recipients of the committed target are told failure and will be delivered again on retry",
-    108: "LMTP: a target implementing PartialDelivery reported success for a recipient in BodyNonAtomic and its Commit failed afterwards; the recipient's reply stays a success",
 }
 TRUSTED = [
     "Coq 8.16.1 kernel (coqc); vm_compute",
